@@ -399,7 +399,9 @@ class Rule(MethodMeek):
             #
             if C.hopeful():
                 low_vote = V.min([c.vote for c in C.hopeful()])
-                low_candidates = [c for c in C.hopeful() if (low_vote + E.surplus) >= c.vote]
+                #  a negative surplus (an elected vote can round below quota) must not exclude the lowest candidate itself
+                margin = E.surplus if E.surplus >= V0 else V0
+                low_candidates = [c for c in C.hopeful() if (low_vote + margin) >= c.vote]
                 low_candidate = breakTie(E, low_candidates, 'defeat')
                 if iterationStatus == IS_omega:
                     low_candidate.defeat(msg='Defeat (surplus %s < omega)' % E.surplus)
